@@ -207,6 +207,7 @@ class Module:
         if preempt and 'void vp_unit_b(void)' not in mains_text:
             mains_text = 'void vp_unit_b(void) {}\n' + mains_text
         pre = '#include "vp_rt.h"\nextern int vp_pre_enabled, vp_pre_k, vp_pre_count, vp_pre_ran, vp_spurious_cfg, vp_spurious_at, vp_timeout_at;\nextern int vp2_enabled, vp2_nunits, vp2_u_ctx[4], vp2_u_k[4], vp2_u_ran[4], vp2_cnt[5];\nvoid vp2_run_rest(void); void vp_thread_body(uint32_t);\nvoid vp_run_pending_unit(void);\n'
+        mains_text = mains_text.replace('vp_pre_enabled = 1;', 'vp_pre_enabled = 1; vp_hb_fork();').replace('vp2_enabled = 1;', 'vp2_enabled = 1; vp_hb_fork();')
         open(mains, 'w').write(pre + mains_text)
         arena = (self.info['globals_end'] + 63) // 64 * 64
         need = arena + nthreads * (heap + stack)
@@ -239,6 +240,8 @@ class Module:
                 self.defines.append('VP_HB=1')
             open(os.path.join(self.outdir, 'vp_scalar_mem.h'), 'w').write('\n'.join(h) + '\n')
             self.defines.append('VP_SCALAR_MEM=1')
+        elif hb:
+            self.defines.append('VP_HB=1')   # sequentialised schedules: array shadow inside rt/vp_rt.c
         self.gb = os.path.join(self.outdir, 'module.gb')
         cmd = ['goto-cc', '-I' + RT, '-I' + self.outdir, '-o', self.gb, self.cfile, mains, os.path.join(RT, 'vp_rt.c'), os.path.join(RT, 'vp_sync.c')] + ['-D' + d for d in self.defines]
         r = sh(cmd)
